@@ -136,6 +136,10 @@ class PyExec:
             o.append(f"wakeup {sim.us(nw) - self.w.now}")
         elif op == 'd21.dump':
             o.append(self.d21_dump(int(t[1])))
+        elif op == 'ca.new':
+            self.ca_new(int(t[1]), None if t[2] == 'n' else int(t[2]), t[3] != '0')
+        elif op.startswith('ca.'):
+            self.ca_op(op, t)
         elif op == 'dm1.send':
             o.append(self.dm1_send(int(t[1]), parse_list(t[2]), parse_list(t[3])))
         elif op == 'dm1.parse':
@@ -178,6 +182,59 @@ class PyExec:
                      f"{b['src_address']}:{b['dest_address']}:{b['next_packet_to_send']}:{b.get('next_wait_on_cts', '-')}:{fmt_list(b['data'])}"
                      for k, b in dll._snd_buffer.items())
         return f"rcv {r} | snd {t}"
+
+    def ca_new(self, name, pref, bypass):
+        if not hasattr(self, 'cas'):
+            self.cas = []
+        j = self.w.j
+        ex = self
+
+        class FakeEcu:
+            def send_message(self, can_id, ext, data, fd_format=False):
+                ex.out.append(f"tx {can_id} {fmt_list(data)}")
+
+            def send_pgn(self, dp, pf, ps, prio, sa, data, time_limit=0, frame_format=3):
+                ex.out.append(f"pgn {dp} {pf} {ps} {prio} {sa} {fmt_list(data)}")
+                return True
+
+            def add_timer(self, delta, cb, cookie=None):
+                ex.out.append(f"timer {sim.us(delta)}")
+
+            def remove_timer(self, cb):
+                ex.out.append("rmtimer")
+
+            def subscribe(self, cb, addr=None): pass
+            def unsubscribe(self, cb): pass
+        ca = j.ControllerApplication(j.Name(value=name), pref, bypass)
+        ca.associate_ecu(FakeEcu())
+        ca.subscribe_request(lambda sa, dest, pgn: ex.out.append(f"reqcb {sa} {dest} {pgn}"))
+        self.cas.append(ca)
+
+    def ca_op(self, op, t):
+        j = self.w.j
+        ca = self.cas[int(t[1])]
+        o = self.out
+        none = lambda v: '-' if v is None else str(v)
+        if op == 'ca.claim':
+            ca._process_claim_async(None)
+        elif op == 'ca.rxclaim':
+            data = parse_list(t[3])
+            ca._process_addressclaim(j.MessageId(can_id=(6 << 26) | (0xEEFF << 8) | int(t[2])), bytearray(data) if all(x < 256 for x in data) else data, 0)
+        elif op == 'ca.request':
+            data = parse_list(t[4])
+            ca._process_request(j.MessageId(can_id=(6 << 26) | (0xEA00 << 8) | int(t[2])), int(t[3]), data, 0)
+        elif op == 'ca.sendmsg':
+            ca.send_message(int(t[2]), int(t[3]), parse_list(t[4]))
+        elif op == 'ca.sendpgn':
+            ca.send_pgn(int(t[2]), int(t[3]), int(t[4]), int(t[5]), parse_list(t[6]))
+        elif op == 'ca.sendreq':
+            ca.send_request(int(t[2]), int(t[3]), int(t[4]))
+        elif op == 'ca.acceptable':
+            o.append("True" if ca.message_acceptable(int(t[2])) else "False")
+        elif op == 'ca.dump':
+            o.append(f"ca {ca._device_address_state} {ca._device_address_announced} {none(ca._device_address)} {none(ca.device_address)}")
+        else:
+            raise ValueError(op)
 
     KEYS = ['pl', 'awl', 'rsl', 'mil']
 
